@@ -70,6 +70,7 @@ type Run struct {
 	retPaths int
 	prop    string
 	sitesHit map[string]bool
+	needs   map[string]bool
 }
 
 type Outcome struct {
@@ -132,7 +133,7 @@ func (e *Engine) inRepo(fn *ssa.Function) bool {
 
 func newRun(e *Engine, fn *ssa.Function, ct *Contract) *Run {
 	return &Run{eng: e, fn: fn, ct: ct, name: fnName(fn), declSet: map[string]bool{}, heap0: map[string]string{}, ghost0: map[string]string{},
-		assumed: map[string]bool{}, noteSet: map[string]bool{}, safeN: map[string]int{}, sitesHit: map[string]bool{}}
+		assumed: map[string]bool{}, noteSet: map[string]bool{}, safeN: map[string]int{}, sitesHit: map[string]bool{}, needs: map[string]bool{}}
 }
 
 // emit records a proof obligation: pc => goal.
